@@ -24,7 +24,7 @@ Next == Update \/ TwinRestart
 Spec == Init /\ [][Next]_vars
 Bound == TLCGet("level") <= Depth
 
-LC == INSTANCE Lifecycle WITH RestartTo <- 1, Incs <- {1}, HasRecs <- FALSE, EpochBound <- TRUE, RefRestart <- FALSE,
+LC == INSTANCE Lifecycle WITH ltab <- [restart |-> 1, incs |-> {1}, hasrecs |-> FALSE, epochbound |-> TRUE, refrestart |-> FALSE],
                               state <- st, warm <- (since > cfg.burn), recs <- <<-1, -1>>
 LCSpec == LC!Spec
 TypeOK == LC!TypeOK /\ st # "warning"
